@@ -446,6 +446,13 @@ class Program:
                     c = self.codec(m, inner.value.id)
                     if c:
                         return c[1].size if c[1].kind != "V" else None
+            # Enum.member.value (int-valued member)
+            if node.attr == "value" and isinstance(node.value, ast.Attribute) and isinstance(node.value.value, ast.Name):
+                k = self.resolve_class(m, node.value.value.id)
+                if k is not None and self.is_enum(k):
+                    mv = self.enum_members(k).get(node.value.attr)
+                    if isinstance(mv, int) and not isinstance(mv, bool):
+                        return mv
             # Cls.CONST / self.CONST
             if isinstance(node.value, ast.Name):
                 k = None
